@@ -328,11 +328,28 @@ func parseBlock(nativeBlock *hclsyntax.Block, from, leadComments, lineComments, 
 	// before we actually append the closing brace and any straggling tokens
 	// that appear after it.
 	bodyTokens, cBrace, from := from.Partition(nativeBlock.CloseBraceRange)
+	singleLine := !startsOnNewLine(bodyTokens.Tokens())
+
+	// A comment on the line of the opening brace belongs to that line. It must
+	// not become the lead comment of the first item in the body, because it
+	// (and, for a single-line comment, the line end it includes) would then be
+	// removed along with that item.
+	openLineEnd := 0
+	for openLineEnd < bodyTokens.Len() {
+		tok := bodyTokens.nativeTokens[openLineEnd]
+		if tok.Type != hclsyntax.TokenComment || tok.Range.Start.Line != nativeBlock.OpenBraceRange.Start.Line {
+			break
+		}
+		openLineEnd++
+	}
+	children.AppendUnstructuredTokens(bodyTokens.Slice(0, openLineEnd).Tokens())
+	bodyTokens = bodyTokens.Slice(openLineEnd, bodyTokens.Len())
+
 	before, body, after := parseBody(nativeBlock.Body, bodyTokens)
 	children.AppendUnstructuredTokens(before.Tokens())
 	block.body = body
 	children.AppendNode(body)
-	if !startsOnNewLine(bodyTokens.Tokens()) {
+	if singleLine {
 		// Single-line block: see Body.singleLineBlock.
 		body.content.(*Body).singleLineBlock = block
 	}
